@@ -40,8 +40,11 @@ ASSUMPTIONS = [
     "are don't-care: the property does not say whether they are reached",
     "cfg_attr(c, path): both the path file and the default file are expected when they exist; trees where "
     "neither reading of a construct is implied by the property text are dropped and counted",
-    "a plan whose deviations include all deviations of a plan that already failed on the same shape or on a "
-    "prefix shape is pruned (counters.pruned_supersets_of_failing_plans); the smaller failing case is the report",
+    "minimal-counterexample policy: once a plan fails, its deviation signature (deviation kinds without node "
+    "indices) is recorded; later plans whose signature contains a recorded one are not run "
+    "(counters.plans_pruned_signature_contains_a_failing_signature) and same-batch failures with such a signature "
+    "are counted, not reported (counters.failing_cases_with_already_reported_signature); enumeration order is "
+    "deterministic and simplest-first, so the reported case is the smallest representative",
     "ignore patterns are evaluated with a gitignore matcher written from the gitignore documentation for "
     "the generated pattern shapes only (exact path, anchored path, basename, directory, dir/*.rs, **/name)",
 ]
@@ -271,7 +274,7 @@ def work(item):
         v = judge(case, obs)
         res = {"id": case["id"], "nontrivial": case["nontrivial"], "status": case["expect"]["status"],
                "violations": [], "features": case.get("features", []), "n_real": case.get("n_real", 0),
-               "n_decoys": case.get("n_decoys", 0), "level": len(devs), "plan": M.plan_id(shape, devs),
+               "n_decoys": case.get("n_decoys", 0), "level": len(devs), "plan": M.plan_id(shape, devs), "sig": M.plan_sig(devs),
                "runs": len(obs), "failed": bool(v), "dup_symptoms": 0}
         if v:
             # determinism: re-run once
@@ -322,7 +325,8 @@ def explore(run):
     mismatch = False
     with common.Scratch("c13") as sc:
         _SCRATCH = sc.root
-        failing = {}  # shape tuple -> [frozenset of deviation strings] of plans that failed
+        last_reported_plan = [None]
+        failing = []  # deviation signatures of plans that failed (see M.enumerate_plans)
         levels = M.levels(tier)
         completed = []
         slice_n = 1000 if tier == "quick" else 4000
@@ -356,14 +360,19 @@ def explore(run):
                                 run.sample(r["sample"], limit=8)
                             if r["failed"]:
                                 run.count("cases_with_violation")
+                                sig = tuple(r["sig"])
+                                known_sig = [f for f in failing if M.sig_subset(f, sig)]
+                                if known_sig and r["plan"] != last_reported_plan[0]:
+                                    # same deviation kinds as an earlier, smaller failing case: counted, not reported
+                                    run.count("failing_cases_with_already_reported_signature")
+                                    continue
+                                if not known_sig:
+                                    failing.append(sig)
+                                last_reported_plan[0] = r["plan"]
                             for what, det in r["violations"]:
                                 run.violation(r["id"], what, det)
                             if r["dup_symptoms"]:
                                 run.count("symptoms_repeated_on_larger_decoy_variant_of_same_plan", r["dup_symptoms"])
-                            if r["failed"] and r["level"] >= 1:
-                                fs = frozenset(r["plan"][1])
-                                if fs not in failing.setdefault(shape, []):
-                                    failing[shape].append(fs)
                     pos += len(part)
                     n_run += len(part)
             if capped:
